@@ -75,11 +75,37 @@ def cmd_worker(argv):
     return 0
 
 
+def _replay_spec(mod, prop, spec):
+    """One case, or a *history of cases executed in one interpreter* (a violation that needs state left behind by
+    earlier cases of the same process):
+      {"sequence": [spec, ..., spec]}   explicit cases, the violation is that of the last one;
+      {"shard_prefix": {...}}           the cases a worker executed up to and including run `upto`, re-generated."""
+    if isinstance(spec, dict) and "shard_prefix" in spec:
+        c = spec["shard_prefix"]
+        eng = mod.Engine()
+        rec = None
+        for i in range(c["shard"], c["upto"] + 1, c["nshards"]):
+            try:
+                rec = eng.run(i, core.derive(c["seed"], prop, i), c["tier"])
+            except Exception:  # noqa
+                rec = None
+        return (rec or {}).get("viol")
+    if isinstance(spec, dict) and "sequence" in spec:
+        v = None
+        for sp in spec["sequence"]:
+            try:
+                v = mod.replay(sp)
+            except Exception:  # noqa
+                v = None
+        return v
+    return mod.replay(spec)
+
+
 def cmd_worker_replay(argv):
     path = argv[0]
     body = core.read_replay(path)
     mod = engine_module(body["property"])
-    v = mod.replay(body["spec"])
+    v = _replay_spec(mod, body["property"], body["spec"])
     out = {"reproduced": bool(v) and v["fingerprint"] == body["fingerprint"],
            "fingerprint": v["fingerprint"] if v else None,
            "detail": v["detail"] if v else None}
@@ -116,6 +142,74 @@ def cmd_replay(argv):
         return core.EXIT_VIOLATION
     print("  not reproduced on the current tree")
     return core.EXIT_OK
+
+
+def history_replay(prop, mod, fp, v, seed, nshards, runs, tier):
+    """A violation that does not reproduce on its own may depend on state that earlier cases left behind in the
+    worker process (module-level caches in the code under test).  Re-execute, in a fresh interpreter, everything the
+    worker executed up to that run; if the violation returns, reduce the history to an explicit, minimal sequence
+    of cases (each candidate in a fresh interpreter) and write that as the replay file.
+    Returns (path, note) or None."""
+    shard = v["i"] % nshards
+    meta = {"seed": seed, "run_index": v["i"], "seed_i": v["seed_i"], "detail": v.get("detail"),
+            "needs_history": True}
+    pspec = {"shard_prefix": {"seed": seed, "shard": shard, "nshards": nshards, "runs": runs, "tier": tier,
+                              "upto": v["i"]}}
+    ppath = core.write_replay(prop, fp, pspec, meta)
+    ok, rfp, _ = replay_file(ppath, quiet=True)
+    if not ok:
+        return None
+    note = (f"[does not reproduce on its own: needs the {len(range(shard, v['i'], nshards))} cases the same worker "
+            f"process executed before it - state is kept between calls outside the objects they are given]")
+    if not hasattr(mod, "make_case"):
+        return ppath, note
+    prefix = [mod.make_case(core.derive(seed, prop, i), tier) for i in range(shard, v["i"], nshards)]
+    last = v["spec"]
+    budget = [14]
+
+    def test(pre):
+        if budget[0] <= 0:
+            return False
+        budget[0] -= 1
+        path = core.write_replay(prop, fp, {"sequence": list(pre) + [last]}, meta, directory=core.REPLAY_DIR + "/tmp")
+        try:
+            return replay_file(path, quiet=True)[0]
+        except Exception:  # noqa
+            return False
+        finally:
+            try:
+                os.remove(path)
+            except OSError:
+                pass
+
+    if not test(prefix):
+        # the minimised case alone does not carry it: try the unminimised one as generated
+        last = mod.make_case(core.derive(seed, prop, v["i"]), tier)
+        if not test(prefix):
+            return ppath, note
+    # halve, then drop one at a time
+    cur = list(prefix)
+    changed = True
+    while changed and budget[0] > 0 and len(cur) > 1:
+        changed = False
+        half = len(cur) // 2
+        for cand in (cur[half:], cur[:half]):
+            if test(cand):
+                cur, changed = cand, True
+                break
+    if len(cur) <= 4:
+        for j in range(len(cur) - 1, -1, -1):
+            cand = cur[:j] + cur[j + 1:]
+            if cand and test(cand):
+                cur = cand
+    spath = core.write_replay(prop, fp, {"sequence": cur + [last]}, meta)
+    ok, _, _ = replay_file(spath, quiet=True)
+    if not ok:
+        return ppath, note
+    note = (f"[does not reproduce on its own: needs {len(cur)} earlier case(s) in the same process (reduced from "
+            f"{len(prefix)}); the replay file holds the sequence - state is kept between calls outside the objects "
+            f"they are given]")
+    return spath, note
 
 
 # ------------------------------------------------------------- shard check
@@ -189,6 +283,7 @@ def run_shard_check(prop, tier, seed, nshards=None, runs=None, wall=None,
     # ---- violations
     reported, known_hits = [], {}
     seen_fp = {}
+    history_tried = []
     for v in sorted(state["viol"], key=lambda m: m["i"]):
         fp = v["fingerprint"]
         e = known.match_open(prop, fp)
@@ -209,6 +304,17 @@ def run_shard_check(prop, tier, seed, nshards=None, runs=None, wall=None,
             problems.append(f"replay of {path} failed in harness: {ex}")
             continue
         if not ok:
+            # not reproducible on its own in a fresh interpreter: does it need the cases this worker executed before?
+            hist = None
+            if v["i"] < runs and len(history_tried) < 3:
+                history_tried.append(fp)
+                try:
+                    hist = history_replay(prop, mod, fp, v, seed, nshards, runs, tier)
+                except Exception as ex:  # noqa
+                    problems.append(f"history replay of {fp} failed in harness: {ex}")
+            if hist:
+                reported.append((fp, hist[0], (v.get("detail") or "") + " " + hist[1], len(vs)))
+                continue
             problems.append(f"violation {fp} (run {v['i']}) did not reproduce on replay of {path} "
                             f"(replayed fingerprint {rfp})")
             continue
